@@ -51,9 +51,10 @@ package round
 //@   ensures typeis(result0, *Abort) ==> result0.(*Abort).Err != nil
 //@   ensures typeis(result0, *Output) ==> result0.(*Output).Result != nil
 // the round handed back belongs to the same session and is one of the rounds it announced (every implementation
-// ensures result0.Number() <= its Helper's FinalRoundNumber and hands the Helper on; FinalRoundNumber() reads that field)
+// proves result0.Number() <= its Helper's FinalRoundNumber and that the round handed back embeds the same Helper;
+// FinalRoundNumber() reads that field)
 //@   ensures result1 == nil ==> (result0.Number() <= self.(Session).FinalRoundNumber() && result0.FinalRoundNumber() == self.(Session).FinalRoundNumber())
-//@   assumes A-GETTER: the round handed back by Finalize embeds the same Helper as the round that produced it (every implementation builds it from r or r.Helper), so the field-level bound each Finalize proves (result0.Number() <= Helper.info.FinalRoundNumber) is the bound on FinalRoundNumber() the handler uses. The rest of the link is checked: FinalRoundNumber() dispatches to (*Helper).FinalRoundNumber (side condition soledecl), which returns Helper.info.FinalRoundNumber (its contract), a field nothing writes after NewSession (side condition immutable)
+//@   assumes A-PROMOTION: Go's method promotion - FinalRoundNumber() of any round is (*Helper).FinalRoundNumber of its embedded Helper (no other declaration exists: side condition soledecl). With it the clause below follows from what is proved: every Finalize hands back a round with the SAME Helper and a number <= Helper.info.FinalRoundNumber, the getter returns that field (its contract), and nothing writes the field after NewSession (side condition immutable)
 
 //@ interface Round method VerifyMessage
 //@   modifies shared
@@ -113,7 +114,7 @@ package round
 //@   nopanic[C05]
 //@   modifies nothing
 //@   allocates
-//@   ensures typeis(result, *Output) && result != nil && result.(*Output).Result == v_result && fresh(result)
+//@   ensures typeis(result, *Output) && result != nil && result.(*Output).Result == v_result && fresh(result) && result.(*Output).Helper == h
 
 //@ func (*Helper).AbortRound
 //@   nopanic[C05]
